@@ -142,3 +142,44 @@ func (v *valueCtx) Value(k any) any {
 }
 func WithValue(p Context, k, v any) Context { return &valueCtx{p, k, v} }
 func Cause(c Context) error                 { return c.Err() }
+
+type CancelCauseFunc func(cause error)
+
+// WithCancelCause as in package context (the cause is reported by Cause).
+func WithCancelCause(p Context) (Context, CancelCauseFunc) {
+	c := newCtx(p)
+	return c, func(cause error) {
+		if !vrt.Active() {
+			return
+		}
+		vrt.Yield(vrt.Op{Kind: "cancel", Obj: chanID(c.done)})
+		c.cancel(Canceled, true)
+	}
+}
+
+// AfterFunc runs f in its own thread once ctx is done.
+func AfterFunc(ctx Context, f func()) (stop func() bool) {
+	stopped := false
+	ran := false
+	vrt.Go(func() {
+		if d := ctx.Done(); d != nil {
+			d.Recv2()
+		} else {
+			vrt.Yield(vrt.Op{Kind: "never", Enabled: func() bool { return false }})
+		}
+		if !stopped {
+			ran = true
+			f()
+		}
+	})
+	return func() bool {
+		if ran || stopped {
+			return false
+		}
+		stopped = true
+		return true
+	}
+}
+
+// WithoutCancel as in package context.
+func WithoutCancel(p Context) Context { return &valueCtx{Context: bg{}, k: nil, v: nil} }
